@@ -81,6 +81,22 @@ def run(prop, repo_root, seed, evidence_dir=None):
                 continue
             jobs.append(('neutral', vname, dst, changed))
 
+        # ---- behaviour-preserving refactorings written independently of the checker (neutral_patches/: each passes the existing suite)
+        np_dir = os.path.join(VERIF, 'neutral_patches')
+        if os.path.isdir(np_dir):
+            for name in sorted(os.listdir(np_dir)):
+                pf = os.path.join(np_dir, name, 'patch.diff')
+                if not os.path.exists(pf):
+                    continue
+                dst = os.path.join(base, 'p-' + name)
+                _copy_repo(repo_root, dst)
+                r = subprocess.run(['patch', '-p1', '-s', '--no-backup-if-mismatch', '-i', pf], cwd=dst, capture_output=True, text=True)
+                if r.returncode != 0:
+                    results['skipped'].append({'variant': 'refactoring:' + name, 'why': 'patch no longer applies to the current tree'})
+                    shutil.rmtree(dst, ignore_errors=True)
+                    continue
+                jobs.append(('neutral', 'refactoring:' + name, dst, 1))
+
         def job(j):
             kind, name, dst, changed = j
             r = subprocess.run([sys.executable, os.path.join(VERIF, 'sa', 'check.py'), prop, '--repo', dst, '--tier', 'quick',
